@@ -268,9 +268,10 @@ def record_anchors(data: Any, seen_anchors: List[str]) -> None:
     """
     Put every Anchor beneath a node which will not be searched on record.
 
-    The search does not descend into the value of a matched parent or of an
-    excluded aliased key.  An Anchor which is first defined there must still
-    be seen, lest a later Alias of it be mistaken for the original node.
+    The search does not descend into the value of a matched parent, of an
+    excluded aliased key, or of an excluded merged-in key.  An Anchor which is
+    first defined there must still be seen, lest a later Alias of it be
+    mistaken for the original node.
     """
     def record_anchor(node: Any) -> None:
         anchor = Anchors.get_node_anchor(node)
@@ -355,11 +356,12 @@ def yield_children(logger: ConsolePrinter, data: Any,
         elif pathsep is PathSeparators.FSLASH:
             build_path = str(pathsep)
 
-        pool = data.non_merged_items()
-        if include_key_aliases or include_value_aliases:
-            pool = data.items()
+        # Merged-in keys are excluded unless the caller asks for aliases
+        own_keys = None
+        if not (include_key_aliases or include_value_aliases):
+            own_keys = {key for (key, _) in data.non_merged_items()}
 
-        for key, val in pool:
+        for key, val in data.items():
             tmp_path = build_path + YAMLPath.escape_path_section(key, pathsep)
 
             key_anchor_matched = Searches.search_anchor(
@@ -374,8 +376,9 @@ def yield_children(logger: ConsolePrinter, data: Any,
                 .format(key, key_anchor_matched, val_anchor_matched))
 
             if (
-                    (not include_key_aliases
-                     and key_anchor_matched in exclude_alias_matchers)
+                    (own_keys is not None and key not in own_keys)
+                    or (not include_key_aliases
+                        and key_anchor_matched in exclude_alias_matchers)
                     or (not include_value_aliases
                         and val_anchor_matched in exclude_alias_matchers)
             ):
@@ -544,11 +547,12 @@ def search_for_paths(logger: ConsolePrinter, processor: EYAMLProcessor,
         elif pathsep is PathSeparators.FSLASH:
             build_path = strsep
 
-        pool = data.non_merged_items()
-        if include_key_aliases or include_value_aliases:
-            pool = data.items()
+        # Merged-in keys are excluded unless the caller asks for aliases
+        own_keys = None
+        if not (include_key_aliases or include_value_aliases):
+            own_keys = {key for (key, _) in data.non_merged_items()}
 
-        for key, val in pool:
+        for key, val in data.items():
             tmp_path = build_path + YAMLPath.escape_path_section(key, pathsep)
 
             # The key itself may be an Anchor or Alias.
@@ -573,10 +577,13 @@ def search_for_paths(logger: ConsolePrinter, processor: EYAMLProcessor,
                 .format(val_anchor_matched)
             )
 
-            # Aliased keys -- and everything beneath them -- are excluded
-            # unless the caller asks for them.
-            if (not include_key_aliases
-                    and key_anchor_matched in exclude_alias_matchers):
+            # Merged-in and aliased keys -- and everything beneath them -- are
+            # excluded unless the caller asks for them.
+            if (
+                    (own_keys is not None and key not in own_keys)
+                    or (not include_key_aliases
+                        and key_anchor_matched in exclude_alias_matchers)
+            ):
                 record_anchors(val, seen_anchors)
                 continue
 
